@@ -20,3 +20,11 @@ C10_EXEMPT = {
 C10_RESULT_WORDS = {
     'BSC_pipe': (1, 2),
 }
+
+# C08: "path arguments equal to the looked-up paths, in lookup order": the k-th path a decoder shows is the k-th lookup of
+# its window.  Two decoders take their paths from other positions for a reason the kernel gives, and only have to keep
+# lookup order (strictly increasing positions):
+C08_ORDER_ONLY = {
+    'BSC_posix_spawn',      # file actions (stdin/stdout/stderr opens) are looked up before the executable's path
+    'BSC_symlinkat',        # only the new path is resolved by the kernel (the link's contents is not): handler convention = last lookup
+}
